@@ -1012,8 +1012,11 @@ def run_reuse(case: dict[str, Any]) -> Outcome:
             continue
         direct = borrows[b.reused_from]
         prev = direct
-        # holders that did no I/O at all neither dirtied nor vouched for the connection: look further back
-        while not prev.steps and not prev.unexpected and prev.reused_from is not None:
+        # a holder whose own script was clean but who never verifiably read a response of its own (no I/O at all, or
+        # only a stream opened and closed without a tick - close() swallows read errors) neither dirtied nor vouched
+        # for the connection: the state it found was left by an earlier holder
+        while (prev.clean_so_far() and not prev.unexpected and not any(_own(t, prev) for t in prev.seen)
+               and prev.reused_from is not None):
             prev = borrows[prev.reused_from]
         pf, certain = prev.final()
         key = _key(prev)
